@@ -58,7 +58,11 @@ func dirVsMeta(fs *simfs.FS) (extra, missing []string) {
 	return
 }
 
-func runC13(c C13Case) (res common.Result) {
+func runC13(c C13Case) common.Result { return runC13x(c, false) }
+
+// runC13x: with strictReads a read racing the truncation must return the entry (as it was) or
+// ErrLogNotFound - the C06 verdict; without it only reads of entries that stay are judged (C13).
+func runC13x(c C13Case, strictReads bool) (res common.Result) {
 	hookMu.Lock()
 	defer hookMu.Unlock()
 	fs := simfs.New()
@@ -170,6 +174,10 @@ func runC13(c C13Case) (res common.Result) {
 				res.Fail = common.Failf("read-error", "pinned reader GetLog(%d) = %v for an entry that stayed in the log", r.idx, r.err)
 				return
 			}
+			if strictReads {
+				res.Fail = common.Failf("read-error-racing-truncation", "GetLog(%d) racing DeleteRange(%d,%d) returned %q: neither the entry (the read began before the truncation) nor ErrLogNotFound", r.idx, min, max, r.err)
+				return
+			}
 		}
 	}
 	// now nothing pins the old state: deleted segments' files are gone, nothing else is
@@ -261,4 +269,23 @@ func TestC13Pinned(t *testing.T) {
 		}
 		return c
 	}, runC13)
+}
+
+// TestC06LoadedReader: C06's verdict over the same executions - a GetLog that was between loading
+// the state and taking its reference when a truncation published (and finalised) under it returns
+// the entry or ErrLogNotFound, never an I/O error from a file the truncation closed or deleted.
+func TestC06LoadedReader(t *testing.T) {
+	common.Run(t, "C06", "C06LoadedReader", func(t *rapid.T) C13Case {
+		c := C13Case{SegSize: rapid.SampledFrom([]int{128, 256, 512}).Draw(t, "seg"), N: rapid.IntRange(3, 14).Draw(t, "n")}
+		for i := 0; i < rapid.IntRange(0, 2).Draw(t, "nr"); i++ {
+			c.Readers = append(c.Readers, rapid.IntRange(0, 13).Draw(t, "off"))
+		}
+		for i := 0; i < rapid.IntRange(1, 3).Draw(t, "nl"); i++ {
+			c.Loaders = append(c.Loaders, rapid.IntRange(0, 13).Draw(t, "loff"))
+		}
+		c.Kind = rapid.SampledFrom([]string{"head", "head", "tail", "all"}).Draw(t, "kind")
+		c.Cut = rapid.IntRange(0, 13).Draw(t, "cut")
+		c.Start = rapid.SampledFrom([]uint64{1, 1, 100}).Draw(t, "start")
+		return c
+	}, func(c C13Case) common.Result { return runC13x(c, true) })
 }
